@@ -139,6 +139,7 @@ def check_C20(ctx):
 # message-level suites (msg / dec / hist) shared by C01..C06, C08..C11, C13, C19
 
 import re as _re
+import re
 
 
 def parse_flags(s):
@@ -427,6 +428,9 @@ def leaf_eval(r):
     if s == "fnstr":
         f, impl, ref = c[:3]
         return (impl == ref, impl == mv, "FieldNumber(%s).String() = %s, strconv.Itoa = %s, model %s" % (f, impl, ref, mv), f, f not in ("0",), "fnstr")
+    if s == "sweep32":
+        k, total, bad, first = (c + [""])[:4]
+        return (bad == "0", True, "exhaustive sweep of %s values of %s: %s mismatches %s" % (total, k, bad, first), "sweep|" + k, True, k)
     if s == "durdec":
         sec, n, impl, ref = c[:4]
         return (impl == ref, impl == mv, "Duration decode (%s s, %s ns) = %s, durationpb %s, model %s" % (sec, n, impl, ref, mv), "durdec|%s|%s" % (sec, n), (sec, n) != ("0", "0"), "durdec")
@@ -528,10 +532,18 @@ def _msg_suite(c, n_quick, n_thorough):
     return ("msg", ["msg", c.seed, _n(c, n_quick, n_thorough)])
 
 
+def fresh_suites(ctx, entries):
+    """entries: [(suite, args-without-driver)] -> run on the fresh driver if it can be built (else reported by C12)."""
+    res = fresh_driver(ctx)
+    if not res.get("driver"):
+        return []
+    return [(n, a, res["driver"]) for n, a in entries]
+
+
 def check_C01(ctx):
     return run_message_property(ctx, dict(
         theorems=["C01_scalar_field", "C01_varint_readable", "C01_framing"],
-        suites=lambda c: [_msg_suite(c, 2500, 60000)],
+        suites=lambda c: [_msg_suite(c, 2000, 60000)] + fresh_suites(c, [("msg", ["msg", c.seed + 11, _n(c, 1200, 30000), ".proto:"])]),
         prop={"msg": msg_flag("c01")}, tie={"msg": tie_bytes}, spec={"msg": spec_msg},
         nontrivial=nontrivial_any, shrink_flag="c01=bad", rule=MSG_RULE + "; oracle: proto.Unmarshal (dynamicpb) of the Marshal output compared with the value"))
 
@@ -539,7 +551,7 @@ def check_C01(ctx):
 def check_C03(ctx):
     return run_message_property(ctx, dict(
         theorems=["C03_scalar", "C03_transform", "C03_duration", "C03_time"],
-        suites=lambda c: [_msg_suite(c, 2500, 60000)],
+        suites=lambda c: [_msg_suite(c, 2000, 60000)] + fresh_suites(c, [("msg", ["msg", c.seed + 12, _n(c, 1200, 30000), ".proto:"])]),
         prop={"msg": msg_flag("c03")}, tie={"msg": tie_bytes}, spec={"msg": spec_msg},
         nontrivial=nontrivial_any, shrink_flag="c03=bad", rule=MSG_RULE + "; oracle: deep comparison of m with Unmarshal(Marshal(m)) (bit patterns, presence, map contents)"))
 
@@ -547,7 +559,7 @@ def check_C03(ctx):
 def check_C06(ctx):
     return run_message_property(ctx, dict(
         theorems=["C06_minimal_varint", "C06_minimal_tag", "C06_minimal_length", "C06_field"],
-        suites=lambda c: [_msg_suite(c, 2500, 60000)],
+        suites=lambda c: [_msg_suite(c, 2000, 60000)] + fresh_suites(c, [("msg", ["msg", c.seed + 13, _n(c, 1200, 30000), ".proto:"])]),
         prop={"msg": lambda r: r["impl"] != "PANIC" and r["flags"].get("c06") in ("ok", "na")}, tie={"msg": tie_bytes}, spec={"msg": spec_msg},
         nontrivial=nontrivial_any, shrink_flag="c06=bad",
         rule=MSG_RULE + "; map-free types only for the property test; oracle: bytes == deterministic re-marshal of their own parse (protobuf-go)"))
@@ -556,7 +568,7 @@ def check_C06(ctx):
 def check_C08(ctx):
     return run_message_property(ctx, dict(
         theorems=["C08_optional_always", "C08_oneof_always", "C08_oneof_enum_always", "C08_always_emits", "C08_message_presence"],
-        suites=lambda c: [_msg_suite(c, 2500, 60000)],
+        suites=lambda c: [_msg_suite(c, 1500, 60000)] + fresh_suites(c, [("msg", ["msg", c.seed + 14, _n(c, 1500, 30000), "presence.proto:"])]),
         prop={"msg": lambda r: r["impl"] != "PANIC" and r["flags"].get("c08o") == "ok" and r["flags"].get("c08r") == "ok"},
         tie={"msg": tie_bytes}, spec={"msg": spec_msg}, nontrivial=nontrivial_any, shrink_flag="c08",
         rule=MSG_RULE + "; projection: presence skeleton (nil-ness, selected oneof member, list lengths) after round trip and as seen by the reference (Has())"))
@@ -582,7 +594,8 @@ def check_C10(ctx):
 def check_C04(ctx):
     return run_message_property(ctx, dict(
         theorems=["C04_varint_in_bounds", "C04_bytes_in_bounds"],
-        suites=lambda c: [("decb", ["decb", c.seed, _n(c, 4000, 100000)]), ("deep", ["deep", c.seed])],
+        suites=lambda c: [("decb", ["decb", c.seed, _n(c, 3000, 100000)])] +
+                         (fresh_suites(c, [("deep", ["deep", c.seed]), ("decb", ["decb", c.seed + 5, _n(c, 1500, 30000)])]) or [("deep", ["deep", c.seed])]),
         prop={"dec": lambda r: r["ist"] != "PANIC" and "input-modified" not in r["flags"] and "slow" not in r["flags"]},
         tie={"dec": tie_dec_class}, nontrivial=nontrivial_any,
         trusted=["runtime facts observed, not modelled: Go stack growth on 10 000-deep nesting, wall-clock time, recover()"],
@@ -611,8 +624,10 @@ def check_C09(ctx):
 def check_C11(ctx):
     return run_message_property(ctx, dict(
         theorems=["C11_entry"],
-        suites=lambda c: [("msg", ["msg", c.seed, _n(c, 500, 30000), "Map"]), ("decv", ["decv", c.seed, _n(c, 600, 30000), "Map"]), ("hist", ["hist", c.seed + 1, _n(c, 200, 5000), "Map"])],
-        filter=lambda r: "Map" in r.get("key", ""),
+        suites=lambda c: [("msg", ["msg", c.seed, _n(c, 300, 30000), "Map"]), ("decv", ["decv", c.seed, _n(c, 300, 30000), "Map"]), ("hist", ["hist", c.seed + 1, _n(c, 150, 5000), "Map"])] +
+                         fresh_suites(c, [("msg", ["msg", c.seed + 2, _n(c, 250, 20000), "allmaps"]), ("decv", ["decv", c.seed + 2, _n(c, 250, 20000), "allmaps"]),
+                                          ("hist", ["hist", c.seed + 2, _n(c, 100, 5000), "allmaps"])]),
+        filter=lambda r: "Map" in r.get("key", "") or "allmaps" in r.get("key", ""),
         prop={"msg": lambda r: r["impl"] != "PANIC" and r["flags"].get("c01") == "ok" and r["flags"].get("c03") == "ok",
               "dec": lambda r: r["ist"] == "ok" and r["flags"].get("c02") == "ok",
               "hist": lambda r: r["flags"].get("seq") == "ok" and r["flags"].get("ref") == "ok"},
@@ -761,3 +776,266 @@ def check_C12(ctx):
              "boundary schemas (optional enum, map<_,message/enum>, capture with number >= 64) must be rejected by generator and model alike")
     rc = run_message_property_with(ctx, spec, pre_problems=obligations_bad)
     return rc
+
+
+# --------------------------------------------------------------------------
+# C18 generated sources
+
+def check_C18(ctx):
+    level = "translation_validation"
+    if not ctx.prep["driver_ok"]:
+        return infra_failure(ctx, level)
+    ok, ob, problems = proof_status(ctx, ["C18_types_table", "C18_schemas_generate"])
+    import shutil
+    scratch = os.path.join(C.WORK, "c18")
+    shutil.rmtree(scratch, ignore_errors=True)
+    out = driver_out(ctx, ["c18", scratch], timeout=900)
+    arte = []
+    for line in out.split("\n"):
+        c = line.split("\t")
+        if c[0] == "c18" and len(c) >= 3:
+            arte.append((c[1], c[2], c[3] if len(c) > 3 else ""))
+    samples = []
+    for path, status, detail in arte:
+        samples.append({"artefact": path, "status": status})
+        if status == "DIFF":
+            diff = ""
+            try:
+                diff = open(detail).read()[:6000]
+            except OSError:
+                pass
+            ctx.violation("diff-" + path.replace("/", "_"), {"artefact": path, "what": "checked-in file differs from the output of the generator built from the working tree",
+                                                               "diff": diff, "replay_cmd": "/verif/work/bin/zzverif c18 /verif/work/c18"},
+                          text="%s differs from generator output" % path)
+        elif status != "same":
+            ctx.violation("err-" + path.replace("/", "_"), {"artefact": path, "what": "generator could not be run", "detail": detail[:2000]},
+                          text="%s: %s" % (path, detail[:200]))
+    # semantic half: programs in the checked-in *.pico.go = generator model on the working tree's schemas
+    import registry
+    specs = ["%s=%s" % (e[0], e[1]) for e in registry.CHECKED_IN]
+    rows = E.run_suite(ctx, "schema-of", ["schema-of"] + specs) if model_available(ctx) else []
+    model_progs, go_names = {}, {}
+    for r in rows:
+        if r["suite"] == "progs":
+            model_progs[r["cols"][0]] = (r["model"][0] if r["model"] else "?").split(";;")
+            go_names[r["cols"][0]] = r["cols"][1].split(",")
+    files = [os.path.join(C.REPO, e[4]) for e in registry.CHECKED_IN]
+    base2proto = {os.path.basename(e[4]): e[1] for e in registry.CHECKED_IN}
+    tp = driver_out(ctx, ["tpico"] + files)
+    compared, prog_bad = 0, []
+    for line in tp.split("\n"):
+        c = line.split("\t")
+        if c[0] == "prog" and len(c) >= 5:
+            proto = base2proto.get(c[1])
+            names = go_names.get(proto, [])
+            if c[2] in names:
+                compared += 1
+                mp = model_progs[proto][names.index(c[2])] if names.index(c[2]) < len(model_progs.get(proto, [])) else "?"
+                if mp != c[3] + "|" + c[4]:
+                    prog_bad.append({"file": c[1], "type": c[2], "checked_in": (c[3] + "|" + c[4])[:1500], "model": mp[:1500]})
+        elif c[0] == "progerror":
+            prog_bad.append({"file": c[1], "error": c[2][:300]})
+    ctx.cover.update({"programs": len(arte) + compared, "disagreements_checked": len(arte) + compared,
+                      "generated_artefacts_diffed": len(arte), "message_programs_compared_with_model": compared})
+    ctx.add_cases(len(arte) + compared, len(arte) + compared, samples=samples[:8])
+    ctx.cover["rule"] = ("8 generated artefacts regenerated by the generators built from the working tree (generatecoder in a scratch directory; "
+                         "protoc-gen-pico on descriptors parsed from the working tree's .proto files with the go:generate parameters) and compared byte for byte; "
+                         "Encode/Decode programs of every checked-in message parsed back (T-pico) and compared with the generator model")
+    if not ctx.violations and (prog_bad or not ok):
+        detail = {"broken_theorems_or_obligations": problems, "program_mismatches": prog_bad[:5],
+                  "search": "byte comparison of all 8 artefacts found no difference"}
+        ctx.violation("tie", detail, has_input=False, text=json.dumps(detail)[:400])
+    shutil.rmtree(scratch, ignore_errors=True)
+    return E.finish(ctx, level, trusted=KERNEL_TB + ["protoparse (proto3 subset parser written for this harness) stands in for protoc; validated by reproducing all five checked-in *.pico.go byte for byte"])
+
+
+# --------------------------------------------------------------------------
+# C07 imports / link
+
+def link_probe_source():
+    """A program that references every exported function and method of the runtime and one
+    message of every generated package (method expressions kept alive through a sink)."""
+    import re as _r
+    lines = ['package main', '', 'import (', '\t"storj.io/picobuf"', '\t"storj.io/picobuf/picoconv"', '\t"storj.io/picobuf/picowire"',
+             '\tpicotest "storj.io/picobuf/internal/picotest"', '\tcompat "storj.io/picobuf/internal/protocompat/pico"',
+             '\tszone "storj.io/picobuf/internal/sizebench/pico/one"', '\tsztwo "storj.io/picobuf/internal/sizebench/pico/two"',
+             '\tszsml "storj.io/picobuf/internal/sizebench/pico/sml"', ')', '', 'var sink []interface{}', '', 'func main() {']
+    for f, recv in (("encoder.go", "Encoder"), ("encoder_types.go", "Encoder"), ("decoder.go", "Decoder"), ("decoder_types.go", "Decoder")):
+        src = open(os.path.join(C.REPO, f)).read()
+        for m in _r.findall(r"^func \(\w+ \*%s\) ([A-Z]\w*)\(" % recv, src, _r.M):
+            lines.append("\tsink = append(sink, (*picobuf.%s).%s)" % (recv, m))
+    for fn in ("Marshal", "MarshalBuffer", "Unmarshal", "NewEncoder", "NewEncoderBuffer", "NewDecoder"):
+        lines.append("\tsink = append(sink, picobuf.%s)" % fn)
+    lines.append("\tsink = append(sink, picobuf.FieldNumber.String, picobuf.FieldNumber.IsValid)")
+    for t in _r.findall(r"^type (Map\w+) map\[", open(os.path.join(C.REPO, "picowire", "map.go")).read(), _r.M):
+        lines.append("\tsink = append(sink, (*picowire.%s).PicoEncode, (*picowire.%s).PicoDecode)" % (t, t))
+    for t in ("Timestamp", "Duration"):
+        lines.append("\tsink = append(sink, (*picoconv.%s).PicoEncode, (*picoconv.%s).PicoDecode)" % (t, t))
+    for alias, typ in (("picotest", "AllTypes"), ("picotest", "CustomMessageTypes"), ("picotest", "Tag"), ("picotest", "UnknownMessage"), ("compat", "Types"), ("compat", "Map"),
+                       ("szone", "Types"), ("sztwo", "Types2"), ("szsml", "Types")):
+        lines.append("\t{ m := new(%s.%s); b, _ := picobuf.Marshal(m); _ = picobuf.Unmarshal(b, m); sink = append(sink, m) }" % (alias, typ))
+    lines += ["\tprintln(len(sink))", "}"]
+    return "\n".join(lines) + "\n"
+
+
+def check_C07(ctx):
+    level = "other"
+    ok, ob, problems = proof_status(ctx, ["C07_plain", "C07_verif"])
+    import translate as T
+    findings = []
+    total = 0
+    samples = []
+    # direct reading of the import graphs (the same data the regenerated Coq file holds), to name offenders
+    for cfg, verif in (("plain", False), ("verif", True)):
+        try:
+            pk = T.go_list_deps(T.RUNTIME_PKGS + T.GENERATED_PKGS, verif)
+        except Exception as e:  # noqa
+            problems.append("go list (%s) failed: %s" % (cfg, str(e)[:300]))
+            continue
+        by = {p["ImportPath"]: p for p in pk}
+        for root in T.RUNTIME_PKGS + T.GENERATED_PKGS:
+            if root not in by:
+                continue
+            total += 1
+            # BFS with parent pointers for a witness path
+            parent, todo = {root: None}, [root]
+            while todo:
+                n = todo.pop(0)
+                for i in by.get(n, {}).get("Imports", []):
+                    if i not in parent:
+                        parent[i] = n
+                        todo.append(i)
+            for n in parent:
+                p = by.get(n, {})
+                if n in T.FORBIDDEN or (not p.get("Standard") and not n.startswith("storj.io/picobuf") and n not in ("C", "unsafe")):
+                    path = [n]
+                    while parent[path[-1]] is not None:
+                        path.append(parent[path[-1]])
+                    findings.append({"config": cfg, "root": root, "forbidden": n, "import_path": list(reversed(path))})
+            if len(samples) < 4:
+                samples.append({"config": cfg, "root": root, "transitive_imports": len(parent) - 1})
+    # link-time evidence
+    nm_hits = []
+    link = os.path.join(C.WORK, "link")
+    os.makedirs(link, exist_ok=True)
+    open(os.path.join(link, "main.go"), "w").write(link_probe_source())
+    for cfg, verif in (("plain", False), ("verif", True)):
+        repl = {os.path.join(C.REPO, "internal", "zzlink", "main.go"): os.path.join(link, "main.go")}
+        if verif:
+            repl.update(json.load(open(C.write_overlay()))["Replace"])
+        ovp = os.path.join(link, "overlay-%s.json" % cfg)
+        json.dump({"Replace": repl}, open(ovp, "w"))
+        exe = os.path.join(link, "probe-" + cfg)
+        cmd = ["go", "build", "-o", exe, "-overlay", ovp] + (["-tags", "verif"] if verif else []) + ["./internal/zzlink"]
+        rc, so, se = C.run(cmd, cwd=C.REPO, env=C.GOENV, check=False, timeout=600)
+        if rc != 0:
+            problems.append("link probe (%s) does not build: %s" % (cfg, (so + se)[-800:]))
+            continue
+        rc, so, se = C.run(["go", "tool", "nm", exe], cwd=C.REPO, env=C.GOENV, check=False, timeout=300)
+        syms = so.split("\n")
+        total += 1
+        hits = [l.split()[-1] for l in syms if l.split() and (re.search(r"\b(reflect|fmt)\.", l.split()[-1]) and "internal/reflectlite" not in l or "MethodByName" in l)]
+        if hits:
+            nm_hits.append({"config": cfg, "symbols": hits[:20]})
+        samples.append({"config": cfg, "linked_symbols": len(syms), "reflect_or_fmt_symbols": len(hits)})
+        try:
+            os.remove(exe)
+        except OSError:
+            pass
+    ctx.add_cases(total, max(2, total), samples=samples)
+    ctx.cover["rule"] = ("`go list -deps` of the 4 runtime and 5 generated packages in both build configurations (plain / -tags verif with the injected hook), "
+                         "checked by a verified closure over the regenerated graph; plus a linked probe referencing every exported function, method and map codec, scanned with go tool nm")
+    ctx.cover["explanation"] = ("Verified checker over a graph extracted by `go list`: Theorem C07_plain/C07_verif (closed set + soundness lemma) shows no reachable package is "
+                                "reflect, fmt or outside std/module. The linker's dead-code elimination is toolchain behaviour: observed with go tool nm on a probe binary.")
+    for f in findings[:3]:
+        ctx.violation("import-%s-%s" % (f["config"], f["forbidden"].replace("/", "_")), dict(f, what="forbidden package reachable", replay_cmd="cd /repo && go list -deps " + f["root"]),
+                      text="%s imports %s via %s" % (f["root"], f["forbidden"], " -> ".join(f["import_path"])))
+    for h in nm_hits[:2]:
+        ctx.violation("nm-" + h["config"], dict(h, what="linked binary contains reflect/fmt/MethodByName symbols"), text="nm: %s" % h["symbols"][:5])
+    if not ctx.violations and not ok:
+        ctx.violation("tie", {"broken_theorems_or_obligations": problems, "search": "import graphs and nm scan show no forbidden package"}, has_input=False,
+                      text=json.dumps(problems)[:400])
+    return E.finish(ctx, level, trusted=KERNEL_TB + ["`go list -deps` output and `go tool nm` (Go toolchain)"])
+
+
+# --------------------------------------------------------------------------
+# C16 concurrency
+
+def check_C16(ctx):
+    level = "other"
+    if not ctx.prep["driver_ok"]:
+        return infra_failure(ctx, level)
+    ok, ob, problems = proof_status(ctx, ["C16_sched", "C16_no_shared_mutable_state"])
+    exe = os.path.join(C.BIN, "zzverif-race")
+    rc, msg, dt = C.go_build("./internal/zzverif", exe, race=True)
+    if rc != 0:
+        ctx.violation("race-build", {"what": "race-instrumented build of the harness failed", "log": msg[-2000:]}, has_input=False, text=msg[-300:])
+        return E.finish(ctx, level, trusted=KERNEL_TB)
+    n, g = (150, 16) if ctx.tier == "quick" else (3000, 64)
+    env = dict(os.environ, VERIF_REPO=C.REPO, GORACE="halt_on_error=0 exitcode=66")
+    p = subprocess.run([exe, "race", str(ctx.seed), str(n), str(g)], stdout=subprocess.PIPE, stderr=subprocess.PIPE, text=True, env=env, timeout=3000)
+    rows = [l.split("\t") for l in p.stdout.split("\n") if l.startswith("race\t")]
+    bad = [r for r in rows if r[4] != "ok"]
+    races = p.stderr.count("WARNING: DATA RACE")
+    hist = {"type": {}}
+    for r in rows:
+        hist["type"][r[1]] = hist["type"].get(r[1], 0) + 1
+    ctx.add_cases(len(rows), len({r[3] for r in rows if len(r[3]) > 40}), traces=len(rows), hist=hist,
+                  samples=[{"type": r[1], "goroutines": r[2], "message": r[3][:200], "result": r[4]} for r in rows[:2]])
+    ctx.cover["rule"] = ("%d random messages x %d goroutines each doing Marshal of the same message, Unmarshal of the same input bytes into its own message and a picoconv "
+                         "round trip, under the Go race detector; every result compared with the sequential baseline; non-trivial = message with content" % (n, g))
+    ctx.cover["explanation"] = ("Schedule-independence proved generically in Coq (C16_sched); its side condition 'no step writes shared state' discharged from the regenerated "
+                                "list of package-level variables (C16_no_shared_mutable_state); data races in compiled Go are a runtime fact observed with -race.")
+    ctx.cover["race_reports"] = races
+    if races or p.returncode == 66:
+        ctx.violation("race", {"what": "Go race detector report", "report": p.stderr[:6000], "replay_cmd": "%s race %d %d %d" % (exe, ctx.seed, n, g)},
+                      text="%d data race reports" % races)
+    elif bad:
+        r = bad[0]
+        ctx.violation("concurrent-result", {"type": r[1], "goroutines": r[2], "message": r[3], "result": r[4],
+                                             "replay_cmd": "%s race %d %d %d" % (exe, ctx.seed, n, g)}, text="%s: %s" % (r[1], r[4][:200]))
+    elif p.returncode != 0:
+        ctx.violation("race-run", {"what": "race run failed", "stderr": p.stderr[-2000:]}, has_input=False, text=p.stderr[-300:])
+    elif not ok:
+        ctx.violation("tie", {"broken_theorems_or_obligations": problems, "search": "race detector run reported nothing"}, has_input=False, text=json.dumps(problems)[:400])
+    return E.finish(ctx, level, trusted=KERNEL_TB + ["Go race detector (runtime)", "T-globals: syntactic scan of package-level variables and their writes (go/ast)"])
+
+
+# --------------------------------------------------------------------------
+# C17 buffers
+
+def check_C17(ctx):
+    level = "proof"
+    if not model_available(ctx):
+        return infra_failure(ctx, level)
+    ok, ob, problems = proof_status(ctx, ["C17_reset", "C17_append", "C17_reslice", "C17_copy", "C17_put", "C17_position_independent"])
+    n = _n(ctx, 600, 20000)
+    out = driver_out(ctx, ["bufs", ctx.seed, n], timeout=3000)
+    rows = [l.split("\t") for l in out.split("\n") if l.startswith("bufs\t")]
+    bad = [r for r in rows if r[3] != "ok"]
+    # argument immutability and model tie ride on the msg/dec suites
+    mrows = parse_rows(E.run_suite(ctx, "msg", ["msg", ctx.seed, _n(ctx, 600, 10000)]))
+    drows = parse_rows(E.run_suite(ctx, "decv", ["decv", ctx.seed, _n(ctx, 600, 10000)]))
+    immut_bad = [r for r in mrows if r["suite"] == "msg" and r["flags"].get("immut") != "ok"]
+    input_bad = [r for r in drows if r["suite"] == "dec" and "input-modified" in r["flags"]]
+    tie_bad = [r for r in mrows if r["suite"] == "msg" and not tie_bytes(r)]
+    total = len(rows) + len([r for r in mrows if r["suite"] == "msg"]) + len([r for r in drows if r["suite"] == "dec"])
+    ctx.add_cases(total, len({r[2] for r in rows if len(r[2]) > 40}) + len({r["val"] for r in mrows if r["suite"] == "msg" and nontrivial_any(r)}), traces=total,
+                  samples=[{"type": r[1], "message": r[2][:200], "result": r[3]} for r in rows[:2]])
+    ctx.cover["rule"] = ("random messages x 11 supplied buffers (nil, cap 0/1, too small, exact, +1/+2/+3, oversized dirty, full of stale data, tiny stale) through MarshalBuffer and "
+                         "NewEncoderBuffer, buffer reuse across consecutive messages, earlier Marshal results re-read after later calls; message snapshot before/after Marshal, "
+                         "input bytes before/after Unmarshal; non-trivial = message with content")
+    if bad:
+        r = min(bad, key=lambda r: len(r[2]))
+        ctx.violation("bufs", {"type": r[1], "message": r[2], "result": r[3], "replay_cmd": "/verif/work/bin/zzverif bufs %d %d" % (ctx.seed, n)}, text="%s: %s" % (r[1], r[3][:200]))
+    elif immut_bad:
+        r = immut_bad[0]
+        ctx.violation("immut", {"type": r["key"], "message": r["val"], "detail": r["detail"][:1500], "what": "Marshal modified its argument"}, text="Marshal modified %s" % r["key"])
+    elif input_bad:
+        r = input_bad[0]
+        ctx.violation("input", {"type": r["key"], "input_hex": r["hex"], "what": "Unmarshal modified its input bytes",
+                                "replay_cmd": "/verif/work/bin/zzverif dec-one '%s' %s" % (r["key"], r["hex"][1:])}, text="Unmarshal modified its input (%s)" % r["key"])
+    elif tie_bad or not ok:
+        ctx.violation("tie", {"broken_theorems_or_obligations": problems, "correspondence_mismatches": len(tie_bad),
+                              "search": "%d buffer cases: MarshalBuffer/NewEncoderBuffer always equal Marshal" % len(rows)}, has_input=False, text=json.dumps(problems)[:300])
+    return E.finish(ctx, level, trusted=KERNEL_TB + ["modelled: Go slice/append/copy semantics as (array, len) with arbitrary stale contents and growth policy (Enc/CBuf.v)"])
